@@ -189,7 +189,9 @@ def check_scales(case, t):
     except KeyError:
         t.exclude(EDGE)
         return
-    days = sorted(set(c // DAY for c in clocks.values()))
+    # calendar days shown by the six clocks at this instant; a reading within 2 us of 0h counts for both days (the
+    # library rounds readings to the microsecond, which can carry a converted reading across midnight)
+    days = sorted(set((c + e) // DAY for c in clocks.values() for e in (-2 * US, 0, 2 * US)))
     if cfg["eop"] == "real" and pick_model(cfg, days) is not m:
         t.exclude(EDGE)
         return
@@ -212,6 +214,8 @@ def check_scales(case, t):
             budget += (1.0e-6 if p in INEXACT else 0.0) + (0.5e-6 if p in INEXACT or q in INEXACT else 0.0)
         if shown in INEXACT:
             budget += 1.0e-6
+        if any("TDB" in h for h in hops):
+            budget += 2.0e-8  # TDB-TT is evaluated at the TAI date one way and at the TDB reading the other way: 3.3e-10 x 33 s
         if model and any("TDB" in h for h in hops):
             budget += 1.0e-7  # constants of the Almanac expression vs the library's (6.6e-8 s) + argument in TAI/TT/TDB (3.3e-8 s)
         if abs(delta) <= budget:
@@ -255,11 +259,25 @@ def check_scales(case, t):
         inst = cands[1]
         clocks = m.clocks(inst)
         t.outcome("UT1 source read with the table day of its own clock")
-    for other, name in ((a2, "(mjd, seconds)"), (a3, "(y, m, d, H, M, S, us)")):
+    try:
+        a4 = Date(a)
+        a5 = Date(D + (sod_us / 1e6) / 86400.0, scale=X)
+        a6 = Date(D, scale=X) if sod_us == 0 else None
+    except Exception as e:
+        t.fail("Date.__init__/raises", "a Date can be built for every covered instant", case, "Date", repr(e))
+        return
+    t.trans(3 if a6 is not None else 2)
+    forms = [(a2, "(mjd, seconds)", 1e-9), (a3, "(y, m, d, H, M, S, us)", 1e-9), (a4, "(Date)", 1e-9)]
+    if a6 is not None:
+        forms.append((a6, "(int mjd)", 1e-9))
+    for other, name, tol in forms:
         dd = abs(stored_diff(other, a))
-        if not (dd <= 1e-9):
-            t.fail("Date.__init__/constructor-forms-disagree", "the three constructor forms denote the same date", case, 0.0, dd, name)
-    t.ev(n=3)
+        if not (dd <= tol) or other.scale.name != X:
+            t.fail("Date.__init__/constructor-forms-disagree", "the constructor forms denote the same date", case, 0.0, dd, name)
+    # a float MJD carries half an ulp of 5e4 days = 0.31 us
+    if not t.margin("constructor from a float MJD vs the exact reading [s] (tol 0.4 us = double resolution)", abs(stored_diff(a5, a)), 0.4e-6, case):
+        t.fail("Date.__init__/float-mjd", "Date(mjd float) is the date of that MJD to the resolution of a double", case, 0.0, stored_diff(a5, a))
+    t.ev(n=len(forms) + 1)
 
     # ---- single hops ---------------------------------------------------------------------------------
     FLOAT = 1e-9  # slack for differences of stored float fields (values < 86470 s, ulp 1.5e-11, a few operations)
@@ -526,6 +544,12 @@ def check_range(case, t):
     t.ev(("R", case["start"], span, step, incl, L, stopk))
     sgn = "negative-step" if step < 0 else "positive-step"
     try:
+        Date.range(start, stop, timedelta(0), inclusive=incl)
+        t.fail("DateRange.__init__/null-step-accepted", "a null step is rejected (ValueError)", case, "ValueError", "DateRange")
+    except ValueError:
+        pass
+    t.trans()
+    try:
         r = Date.range(start, stop, timedelta(microseconds=step), inclusive=incl)
     except ValueError as e:
         if coherent:
@@ -652,6 +676,47 @@ def check_policy(case, t):
 
 
 # ---------------------------------------------------------------------------
+# part 5: the database itself, day by day (EopDb.get, TaiUtc helpers)
+
+
+def check_eopdb(case, t):
+    from beyond.dates.eop import EopDb, TaiUtc
+    import os
+
+    m = _G["real"]
+    lo, hi = case["days"]
+    key = "taiutc"
+    if key not in _G:
+        _G[key] = TaiUtc(os.path.join(POLE, "tai-utc.dat"))
+    tu = _G[key]
+    leaps = m.tb.leap_days()
+    for D in range(lo, hi + 1):
+        for frac in (0.0, 0.5, 0.99999):
+            e = EopDb.get(D + frac)
+            t.trans()
+            t.ev()
+            if e.ut1_utc != m.dut1(D) / TICKS or e.tai_utc != m.tai_utc(D) / TICKS:
+                t.fail("EopDb.get/value-of-the-day", "TAI-UTC and UT1-UTC as tabulated by IERS for that day", dict(case, day=D, frac=frac),
+                       [m.dut1(D) / TICKS, m.tai_utc(D) / TICKS], [e.ut1_utc, e.tai_utc], f"EopDb.get({D + frac})")
+        if tu[D] != m.tai_utc(D) / TICKS:
+            t.fail("TaiUtc.__getitem__/value-of-the-day", "TAI-UTC as tabulated", dict(case, day=D), m.tai_utc(D) / TICKS, tu[D])
+        past, future = tu.get_last_next(D)
+        exp_past = max(x for x in leaps + [41317] if x <= D)
+        nxt = [x for x in leaps if x > D]
+        if past[0] != exp_past or future[0] != (min(nxt) if nxt else None):
+            t.fail("TaiUtc.get_last_next/wrong-neighbours", "last and next leap second relative to a date", dict(case, day=D),
+                   [exp_past, min(nxt) if nxt else None], [past[0], future[0]])
+        t.trans(2)
+    t.states_add(hi - lo + 1)
+    t.ev(("E", lo, hi))
+    t.outcome("eopdb")
+
+
+def replay_eopdb(case, t):
+    check_eopdb(dict(case, days=[case["day"], case["day"]]) if "day" in case else case, t)
+
+
+# ---------------------------------------------------------------------------
 # units
 
 
@@ -681,6 +746,10 @@ def units(tier, seed):
     # arithmetic
     for ch in _chunks(day_set(tier, 193, 13), 48 if tier == "quick" else 160):
         u.append((CFG_MAIN, dict(part="arith", days=ch)))
+    # the database day by day
+    tb = _tables()
+    for lo in range(tb.first, tb.last + 1, 1100):
+        u.append((CFG_MAIN, dict(part="eopdb", days=[lo, min(lo + 1099, tb.last)])))
     # DateRange
     cap = 5_000 if tier == "quick" else 60_000
     for span in R_SPAN_US:
@@ -716,6 +785,8 @@ def run_unit(p, t):
                 for L in R_LABELS:
                     check_range(dict(kind="range", config=cfg, start=p["start"], span_us=p["span_us"], step_us=step,
                                      inclusive=incl, label=L, stop=p["stop"], cap=p["cap"]), t)
+    elif p["part"] == "eopdb":
+        check_eopdb(dict(kind="eopdb", config=cfg, days=p["days"]), t)
     elif p["part"] == "policy":
         for D, _ in POLICY_DATES:
             for sod in (3_600_000_000, 43_200_123_456):  # away from 0h: the day seams are the business of part 1
@@ -729,4 +800,4 @@ def run_unit(p, t):
 def replay(case, t):
     if _G.get("config") != case["config"]:
         raise RuntimeError("replay in a process configured for %r" % (_G.get("config"),))
-    {"scales": check_scales, "arith": replay_arith, "range": check_range, "policy": check_policy}[case["kind"]](case, t)
+    {"scales": check_scales, "arith": replay_arith, "range": check_range, "policy": check_policy, "eopdb": replay_eopdb}[case["kind"]](case, t)
